@@ -100,8 +100,25 @@ class _FakeStdlibTime:
     def time(self) -> float:
         return 1_000_000.0 + self._s.now
 
+    def perf_counter(self) -> float:
+        return 40_000.0 + self._s.now
+
+    def monotonic_ns(self) -> int:
+        return int(self.monotonic() * 1e9)
+
+    def perf_counter_ns(self) -> int:
+        return int(self.perf_counter() * 1e9)
+
+    def time_ns(self) -> int:
+        return int(self.time() * 1e9)
+
     def sleep(self, secs: float) -> None:
         self._s.sleep(max(secs, self._q), "poll_sleep")
+
+    def __getattr__(self, name: str) -> Any:
+        # anything else of the stdlib module (strftime, struct_time, ...) is the real thing
+        import time as _real
+        return getattr(_real, name)
 
 
 class _FakeUvicorn:
@@ -150,6 +167,7 @@ class Scenario:
                                       # collector lock became a scheduling point keep their meaning)
     boot_interrupt: str | None = None   # KeyboardInterrupt instead of starting "inference" | "training" | "webapi"
     keeper_max_keep: int | None = None
+    custom_keeper: bool = False           # a user-written StatesKeeper whose selection is a generator (an Iterable)
     fixed_interval: float | None = None   # FixedIntervalInteraction.with_sleep_adjustor(agent, env, interval, offset)
     interval_offset: float = 0.0
     lazy_points: list = field(default_factory=list)   # e.g. ["clock_resume"]: the control thread dawdles there
@@ -158,6 +176,7 @@ class Scenario:
     archive_states: bool = False      # somebody moves the oldest state directory away after every runtime save
     loop_quantum: float = 0.25        # timed mode: virtual duration of one loop delay
     prelaunch: bool = False           # run a short first launch() and start the scenario from its final state
+    downtime: float = 0.0             # real (virtual) seconds between the preparatory launch and the scenario's
     budget: int = 20000
 
     @staticmethod
@@ -572,6 +591,26 @@ class Harness:
             if sc.keeper_max_keep is not None:
                 from pamiq_core.state_persistence import LatestStatesKeeper
                 keeper = LatestStatesKeeper(self.tmp / "states", sc.keeper_max_keep)
+                if sc.custom_keeper:
+                    from pamiq_core.state_persistence import StatesKeeper
+
+                    class LazyKeeper(StatesKeeper):
+                        """The same policy written by a user: `select_removal_states` is declared to return an
+                        Iterable - here a generator that hands out the oldest tracked states one by one."""
+
+                        def __init__(self, states_dir: Path, max_keep: int) -> None:
+                            super().__init__()
+                            self.max_keep = max_keep
+                            states_dir.mkdir(parents=True, exist_ok=True)
+                            self._paths = sorted(states_dir.glob("*.state"), key=lambda p: p.stat().st_mtime)
+
+                        def append(self, path: Path) -> None:
+                            self._paths.append(path)
+
+                        def select_removal_states(self):
+                            while len(self._paths) > self.max_keep:
+                                yield self._paths.pop(0)
+                    keeper = LazyKeeper(self.tmp / "states", sc.keeper_max_keep)
                 _orig_cleanup = keeper.cleanup
 
                 def _cleanup_w(*a: Any, **kw: Any) -> Any:
@@ -601,6 +640,7 @@ class Harness:
                                     web_api_command_queue_size=1,
                                     max_attempts_to_pause_all_threads=sc.max_attempts))
                 self.in_prelaunch = False
+                s.now += float(sc.downtime)
                 saved_state_path = sorted((self.tmp / "states").glob("*.state"))[-1]
                 self.prelaunch_files = self.read_tree(saved_state_path)
                 # forget the preparatory run: fresh components, fresh trace
@@ -629,6 +669,10 @@ class Harness:
             except KeyboardInterrupt:
                 outcome = "raised:KeyboardInterrupt"
             except BaseException as e:
+                import os as _os
+                if _os.environ.get("PAMIQ_VERIF_TRACE"):
+                    import traceback
+                    traceback.print_exc()
                 outcome = f"raised:{type(e).__name__}"
             s.log("launch_" + outcome.split(":")[0], "", outcome)
             if not outcome.startswith("aborted"):
